@@ -377,5 +377,6 @@ HYPOTHESES = ['is_field F: field_theory of the dictionary operations with Leibni
               'offset <> 0, n*1 <> 0 in the field, stored inverses are inverses, d_size_fe = n*1, d_offset_pow_size = offset^n (what the constructors store)',
               'C07_get_root_large_*: L^(2^S q^qa) = 1, L^(2^(S-1) q^qa) = -1 for the configured large-subgroup root (configuration fact, C16)']
 
+
 # pinned theorems that instantiate this package's abstract-field theorems at the executed ZpOps dictionary
-EXTRA_PROP_FILES = ['Bridge']
+EXTRA_PROP_FILES = ['Bridge', 'Bridge2']
